@@ -27,8 +27,12 @@ def pct_specs(s):
     return n
 
 
+MALFORMED = 999
+
+
 def format_needs(s):
-    """number of positional arguments str.format needs (highest index + 1, or count of auto fields); None for names"""
+    """number of positional arguments str.format needs (highest index + 1, or count of auto fields); None for names;
+    MALFORMED (more than any call supplies) for a text str.format cannot parse, such as `{1)` — it raises ValueError"""
     auto, top = 0, -1
     try:
         for lit, field, spec, conv in string.Formatter().parse(s):
@@ -42,7 +46,7 @@ def format_needs(s):
             else:
                 return None
     except ValueError:
-        return None
+        return MALFORMED
     return max(auto, top + 1)
 
 
